@@ -26,9 +26,19 @@ def one(rep):
 def shard(p):
     acc = Acc()
     rng = rng_for(p["seed"], PID, p["shard"])
-    d = Driver(p["bin"])
+    # every fourth shard evaluates with a logger installed at trace level (RUST_LOG): enabling logging must not change any result.
+    # (The vocabulary - which words mean what, measured scales - comes from a plain driver: a fault that logging switches on must not
+    # also shift the yardstick.)
+    log_env = {"RUST_LOG": "anything=trace"} if p["shard"] % 4 == 3 else None
+    d = Driver(p["bin"], env=log_env)
     try:
-        V = G.Vocab(d)
+        if log_env:
+            acc.context = {"trace_logging": True}
+            acc.count("shards_with_trace_logging_enabled")
+            with Driver(p["bin"]) as d_plain:
+                V = G.Vocab(d_plain)
+        else:
+            V = G.Vocab(d)
         # operand pool: (text, si, dims, is_fact)
         pool = []
         cand = []
@@ -215,7 +225,8 @@ def run(tier, seed):
 def replay(path):
     v = json.load(open(path))
     c = v["case"]
-    with Driver(build.build(c.get("build", "dbg"))["vdriver"]) as d:
+    from core.driver import replay_env
+    with Driver(build.build(c.get("build", "dbg"))["vdriver"], env=replay_env(c)) as d:
         print(json.dumps({"law": c["law"], "lhs": [c["lhs"], d.call({"op": "query", "q": c["lhs"]}).get("items")],
                           "rhs": [c["rhs"], d.call({"op": "query", "q": c["rhs"]}).get("items") if c["rhs"] else None]}, ensure_ascii=False))
     return 0
